@@ -2,6 +2,58 @@
 From CAres.Dsa Require Import Array Array_proofs.
 From CAres.Gen Require Import Consts.
 
+(* ===================== array (src/lib/dsa/ares_array.c) ===================== *)
+
+(* The C19 array theorem: for EVERY sequence of API calls on a fresh array, with an allocator
+   that never refuses, the model returns call by call what the plain list returns (statuses,
+   removed members, reads, lengths), ends with the list as its members, and never runs into C
+   undefined behaviour.  "Keeps sequence order for inserts and removals at any index and stays
+   usable after any removal pattern". *)
+Theorem C19_array_run_refines : forall ops : list arr_op,
+  let '(a', rs) := arr_run arr_create (map (fun o => (true, o)) ops) in
+  let '(l', rs') := aspec_run [] ops in
+  rs = rs' /\ arr_abs a' = l' /\ ~ In RUB rs.
+Proof. exact arr_run_refines. Qed.
+Print Assumptions C19_array_run_refines.
+
+(* With an allocator that may refuse (one answer per call): the only deviation from the list is
+   an in-range insert that reports ARES_ENOMEM and changes nothing, and only when the allocator
+   refused.  (Container-level half of C14 for the array.) *)
+Theorem C19_array_run_alloc_refines : forall ops : list (bool * arr_op),
+  let '(a', rs) := arr_run arr_create ops in
+  aspec_trace [] ops rs (arr_abs a') /\ ~ In RUB rs.
+Proof. exact arr_run_alloc_refines. Qed.
+Print Assumptions C19_array_run_alloc_refines.
+
+(* Per operation, on any state satisfying the invariant (established by create, preserved). *)
+Theorem C19_array_insert : forall ok a idx v,
+  arr_inv_full a -> idx <= a_cnt a ->
+  (exists a', arr_insertdata_at ok a idx v = Ok a' /\ arr_inv_full a'
+              /\ a_cnt a' = S (a_cnt a)
+              /\ arr_abs a' = firstn idx (arr_abs a) ++ v :: skipn idx (arr_abs a))
+  \/ (ok = false /\ arr_insertdata_at ok a idx v = Err ARES_ENOMEM).
+Proof. exact arr_insert_refines. Qed.
+Print Assumptions C19_array_insert.
+
+Theorem C19_array_insert_bad_index : forall ok a idx v,
+  a_cnt a < idx -> arr_insertdata_at ok a idx v = Err ARES_EFORMERR.
+Proof. exact arr_insert_bad_index. Qed.
+Print Assumptions C19_array_insert_bad_index.
+
+Theorem C19_array_remove : forall a idx,
+  arr_inv_full a -> idx < a_cnt a ->
+  exists a' v, arr_remove_at a idx = Ok (a', v) /\ arr_inv_full a'
+               /\ S (a_cnt a') = a_cnt a
+               /\ nth_error (arr_abs a) idx = Some v
+               /\ arr_abs a' = firstn idx (arr_abs a) ++ skipn (S idx) (arr_abs a).
+Proof. exact arr_remove_refines. Qed.
+Print Assumptions C19_array_remove.
+
+Theorem C19_array_remove_bad_index : forall a idx,
+  a_cnt a <= idx -> arr_remove_at a idx = Err ARES_EFORMERR.
+Proof. exact arr_remove_bad_index. Qed.
+Print Assumptions C19_array_remove_bad_index.
+
 Theorem C19_array_at_refines : forall a idx, arr_at a idx = nth_error (arr_abs a) idx.
 Proof. exact arr_at_refines. Qed.
 Print Assumptions C19_array_at_refines.
